@@ -22,6 +22,15 @@
 (*      filters that admit any subset of them, in histories whose operands *)
 (*      share statement OBJECTS (a stream with itself, a stream with a     *)
 (*      result that still holds its objects)                               *)
+(*   K  look-alikes: stream b holds, in two places TLC chooses (left-hand-  *)
+(*      side index, right-hand side, condition of its first or second      *)
+(*      statement, or both inside ONE of these expressions), two compound  *)
+(*      expressions that are equal for Python's == and differ only in the  *)
+(*      KIND of a constant below the top node (2 / 2.0, 1 / True / 1.0,    *)
+(*      0 / False / 0.0); with a clash on the look-alikes' identifier, on  *)
+(*      another identifier, with no clash, under filters, and the stream   *)
+(*      with itself.  Disambiguation must hand every constant back with    *)
+(*      its kind (the trees are strict about it, Python's == is not).      *)
 (* Histories carry a flag  alias : 1 = every base stream is built once and *)
 (* the same statement objects are handed in whenever it is used again,     *)
 (* 0 = a fresh copy is built for every use.  (C20_Heap is the model of     *)
@@ -173,6 +182,57 @@ POps(c) ==
       [] c.shape = "r" -> << Op("fuse", "L", c.SB, FltDefault), Op("daf", "R", c.SA, c.flt) >>
 
 (***************************************************************************)
+(* Mode K: look-alikes (equal for Python's ==, different kinds of a nested *)
+(* constant) in two places of the second stream                            *)
+(***************************************************************************)
+vy == V("y")
+KShape(j, c) ==
+    CASE j = 1 -> N("Product", << c, vi >>)                      \* c * i
+      [] j = 2 -> B("FloorDiv", vi, c)                           \* i // c
+      [] j = 3 -> Cmp(vi, "==", c)                               \* i == c
+      [] j = 4 -> Sum2(vi, N("Product", << c, vb >>))            \* i + c * b   (two levels down)
+      [] j = 5 -> B("Sub", vb, c)                                \* b[c]
+      [] j = 6 -> Call(vf, << vi, c >>)                          \* f(i, c)
+      [] j = 7 -> B("Power", vi, c)                              \* i ** c
+      [] j = 8 -> IfE(Cmp(vi, "<", c), vi, c)                    \* i if i < c else c
+NKS == IF Tier = "thorough" THEN 8 ELSE 6
+KGroups == << {KI(2), K(FltV(2, 1))},
+              {KI(1), TrueE, K(FltV(1, 1))},
+              {KI(0), K(BoolV(FALSE)), K(FltV(0, 1))} >>
+KConstPairs == UNION {{cc \in KGroups[g] \X KGroups[g] : cc[1] # cc[2]} :
+                         g \in 1..(IF Tier = "thorough" THEN 3 ELSE 2)}
+\* slots of the two statements of stream b: 1-3 index / right-hand side / condition of the
+\* first, 4-6 of the second; the pair sits in slots p[1] <= p[2] (equal: both in one expression)
+KPlacements == {pp \in (1..6) \X (1..6) : pp[1] <= pp[2]}
+KSlot(c, slot) ==
+    LET e1 == KShape(c.sh, c.cc[1])  e2 == KShape(c.sh, c.cc[2]) IN
+    IF c.p[1] = slot /\ c.p[2] = slot
+    THEN (IF (slot % 3) = 0 THEN N("LogAnd", << e1, e2 >>) ELSE Sum2(e1, e2))
+    ELSE IF c.p[1] = slot THEN e1 ELSE IF c.p[2] = slot THEN e2 ELSE NoneE
+KBody(c, j) ==
+    LET w   == IF j = 1 THEN vx ELSE vy
+        idx == KSlot(c, 3 * (j - 1) + 1)
+        r0  == KSlot(c, 3 * (j - 1) + 2)
+        cnd == KSlot(c, 3 * (j - 1) + 3)
+        lhs == IF idx.t = "None" THEN w ELSE B("Sub", w, idx)
+        rhs == IF r0.t = "None" THEN KI(5) ELSE r0
+    IN  IF cnd.t = "None" THEN AsB(lhs, rhs) ELSE CaB(lhs, rhs, cnd)
+KStreamB(c) == << Mk("s", << "u" >>, KBody(c, 1)), Mk("u", << >>, KBody(c, 2)) >>
+\* the first stream: clash on the look-alikes' identifiers (i, b), on a written variable of b
+\* only (x), on nothing (z), or stream b itself ("self": everything clashes, operands alias)
+KCfg(a, flt) == [a |-> a, flt |-> flt]
+KCfgs == IF Tier = "thorough"
+         THEN {KCfg(a, flt) : a \in {"i", "x", "z", "self"},
+                              flt \in {FltDefault, FltNone, FltSet(<< "x", "y" >>)}}
+         ELSE {KCfg("i", FltDefault), KCfg("i", FltNone), KCfg("x", FltDefault),
+               KCfg("z", FltDefault), KCfg("self", FltDefault)}
+KStreamA(c) == IF c.cfg.a = "self" THEN KStreamB(c)
+               ELSE << Mk("s", << >>, AsB(V(c.cfg.a), IF c.cfg.a = "i" THEN vb ELSE KI(1))) >>
+KOps(c) == IF c.cfg.a = "self"
+           THEN << Op("dis", "S", << >>, c.cfg.flt), Op("daf", "S", << >>, c.cfg.flt) >>
+           ELSE << Op("dis", "L", KStreamB(c), c.cfg.flt), Op("daf", "L", KStreamB(c), c.cfg.flt) >>
+
+(***************************************************************************)
 (* Mode R: statements for the read / written sets                          *)
 (***************************************************************************)
 RLhs == { va, B("Sub", va, vi), B("Sub", va, Sum2(vi, vb)), B("Sub", vb, B("Sub", va, vi)),
@@ -232,6 +292,9 @@ Init ==
                                 c \in HClasses, p \in 1..Len(HPool)}
     \/ "P" \in Modes /\ mode = "P" /\ st \in {[SA |-> S, SB |-> << >>, flt |-> FltDefault, shape |-> sh, stage |-> 0] :
                                 S \in PInits, sh \in PShapes}
+    \/ "K" \in Modes /\ mode = "K" /\ st \in {[sh |-> j, p |-> pp, cc |-> << NoneE, NoneE >>,
+                                               cfg |-> KCfg("z", FltDefault), stage |-> 0] :
+                                                  j \in 1..NKS, pp \in KPlacements}
     \/ "R" \in Modes /\ mode = "R" /\ st \in {[s |-> s] : s \in RStmts}
     \/ "G" \in Modes /\ mode = "G" /\ st \in {[n |-> n, d |-> << >>] : n \in 0..MaxN}
     \/ "L" \in Modes /\ mode = "L" /\ st \in LCases
@@ -248,6 +311,10 @@ Next ==
           /\ \E S \in (IF st.shape = "s" THEN {<< >>} ELSE PXs) : st' = [st EXCEPT !.SB = S, !.stage = 1]
        \/ /\ mode = "P" /\ st.stage = 1
           /\ \E flt \in PFilters : st' = [st EXCEPT !.flt = flt, !.stage = 2]
+       \/ /\ mode = "K" /\ st.stage = 0
+          /\ \E cc \in KConstPairs : st' = [st EXCEPT !.cc = cc, !.stage = 1]
+       \/ /\ mode = "K" /\ st.stage = 1
+          /\ \E cfg \in KCfgs : st' = [st EXCEPT !.cfg = cfg, !.stage = 2]
        \/ /\ mode = "H" /\ Len(st.ops) < st.cls.d
           /\ IF Tier = "sim"
              THEN st' = [st EXCEPT !.ops = Append(@, RandomElement(HOps(st.cls.c)))]
@@ -265,6 +332,7 @@ Complete ==
       [] mode = "D" -> st.stage = 2
       [] mode = "H" -> Len(st.ops) = st.cls.d
       [] mode = "P" -> st.stage = 2
+      [] mode = "K" -> st.stage = 2
       [] mode = "R" -> TRUE
       [] mode = "G" -> Len(st.d) = st.n
       [] mode = "L" -> TRUE
@@ -277,6 +345,13 @@ GeneratedWellFormed ==
     /\ mode = "F" /\ Complete => WellFormed(st.SA) /\ WellFormed(st.SB) /\ StreamOK(st.SA) /\ StreamOK(st.SB)
     /\ mode = "D" /\ Complete => WellFormed(st.SA) /\ WellFormed(st.SB) /\ StreamOK(st.SA) /\ StreamOK(st.SB)
     /\ mode = "P" /\ Complete => WellFormed(st.SA) /\ WellFormed(st.SB) /\ StreamOK(st.SA) /\ StreamOK(st.SB)
+    /\ mode = "K" /\ Complete =>
+          /\ WellFormed(KStreamA(st)) /\ WellFormed(KStreamB(st))
+          /\ StreamOK(KStreamA(st)) /\ StreamOK(KStreamB(st))
+          \* the two expressions really are look-alikes: compound, equal for Python's ==,
+          \* different as trees
+          /\ LET e1 == KShape(st.sh, st.cc[1])  e2 == KShape(st.sh, st.cc[2]) IN
+             e1.t # "Const" /\ e1 # e2 /\ PyEq(e1, e2)
     /\ mode = "G" /\ Complete => WellFormed(GStream(st.n, st.d))
     /\ mode = "L" => WellFormed(LStream(st))
     \* the two formulations of acyclicity agree, also on the cyclic candidates
@@ -306,10 +381,36 @@ AlgoRefinesMeaning ==
           LET SB == IF st.shape = "s" THEN st.SA ELSE st.SB IN
           DisClause(st.SA, SB, st.flt, DisImplResult(st.SA, SB, st.flt, FALSE),
                     DisImplMap(st.SA, SB, st.flt, FALSE)) = "OK"
+    /\ mode = "K" /\ Complete =>
+          LET SA == KStreamA(st)  SB == KStreamB(st)  flt == st.cfg.flt
+              R  == DisImplResult(SA, SB, flt, FALSE)
+              C  == DisImplCachedResult(SA, SB, flt)
+              sg == DisImplMap(SA, SB, flt, FALSE)
+          IN  /\ DisClause(SA, SB, flt, R, sg) = "OK"
+              \* the judgement is strict about the kinds of constants: whatever a memoising
+              \* renamer confuses is named by one of the three expression clauses, and the
+              \* difference is attributed to the kinds alone
+              /\ C # R => /\ DisClause(SA, SB, flt, C, sg) \in {"dis-lhs", "dis-rhs", "dis-cond"}
+                          /\ KindOnly(C, R)
     /\ mode = "R" => RWClause(st.s, ReadsImpl(st.s, FALSE), WritesImpl(st.s)) = "OK"
     /\ mode = "G" /\ Complete =>
           DotImplEdges(GStream(st.n, st.d)) = TR(DepEdges(GStream(st.n, st.d)))
     /\ mode = "L" => DotImplEdges(LStream(st)) = TR(DepEdges(LStream(st)))
+
+\* Controls (own cfgs, never part of a generating run).  The memoising renamer of C20_Algo
+\*   C20_Gen_bug_CachedMapper : Ctl_CachedRefines must be VIOLATED - the strict clauses reject it;
+\*   C20_Gen_blind_LooseEq    : Ctl_CachedLooseOK must HOLD on every K input - clauses that compare
+\*                              the expressions with Python's == accept it, although it changes a
+\*                              constant's kind on EVERY input of mode K (Ctl_CachedAlwaysDiffers):
+\*                              the blind spot that strict trees + mode K close.
+KCached == DisImplCachedResult(KStreamA(st), KStreamB(st), st.cfg.flt)
+KSg     == DisImplMap(KStreamA(st), KStreamB(st), st.cfg.flt, FALSE)
+Ctl_CachedRefines ==
+    mode = "K" /\ Complete => DisClause(KStreamA(st), KStreamB(st), st.cfg.flt, KCached, KSg) = "OK"
+Ctl_CachedLooseOK ==
+    mode = "K" /\ Complete => DisClauseLoose(KStreamA(st), KStreamB(st), st.cfg.flt, KCached, KSg) = "OK"
+Ctl_CachedAlwaysDiffers ==
+    mode = "K" /\ Complete => KCached # DisImplResult(KStreamA(st), KStreamB(st), st.cfg.flt, FALSE)
 
 \* what the transcription of the code as it is predicts.  The named deviation
 \* Dev_ReadsIgnoreLhs was repaired in /repo (737009d, findings C20-F1..F3 "fixed"), so the
@@ -318,6 +419,9 @@ CodeHasDev == FALSE
 Pred ==
     CASE mode = "D" -> DisClause(st.SA, st.SB, st.flt, DisImplResult(st.SA, st.SB, st.flt, CodeHasDev),
                                  DisImplMap(st.SA, st.SB, st.flt, CodeHasDev))
+      [] mode = "K" -> DisClause(KStreamA(st), KStreamB(st), st.cfg.flt,
+                                 DisImplResult(KStreamA(st), KStreamB(st), st.cfg.flt, CodeHasDev),
+                                 DisImplMap(KStreamA(st), KStreamB(st), st.cfg.flt, CodeHasDev))
       [] mode = "R" -> RWClause(st.s, ReadsImpl(st.s, CodeHasDev), WritesImpl(st.s))
       [] mode = "F" -> "OK"
       [] mode = "G" -> "OK"
@@ -331,6 +435,8 @@ Case ==
                         ops |-> << Op("dis", "L", st.SB, st.flt), Op("daf", "L", st.SB, st.flt) >>]
       [] mode = "H" -> [k |-> "hist", init |-> st.init, pred |-> Pred, alias |-> st.alias, ops |-> st.ops]
       [] mode = "P" -> [k |-> "hist", init |-> st.SA, pred |-> Pred, alias |-> 1, ops |-> POps(st)]
+      [] mode = "K" -> [k |-> "hist", g |-> "K", init |-> KStreamA(st), pred |-> Pred,
+                        alias |-> (IF st.cfg.a = "self" THEN 1 ELSE 0), ops |-> KOps(st)]
       [] mode = "R" -> [k |-> "rw", s |-> st.s, pred |-> Pred]
       [] mode = "G" -> [k |-> "dot", S |-> GStream(st.n, st.d), pred |-> Pred]
       [] mode = "L" -> [k |-> "dot", S |-> LStream(st), pred |-> Pred]
